@@ -382,3 +382,33 @@ Lemma reg_reachable_limit lim b : reg_reachable lim b -> b_limit b = lim.
 Proof.
   intros [h ->]. induction h as [|e h IH] using rev_ind; [reflexivity|]. rewrite run_snoc, step_limit. exact IH.
 Qed.
+
+Lemma step_limit_irrel_other cs ss n l1 l2 e :
+  (forall c name flags, e <> EvRequest c name flags) ->
+  core (fst (step (mkBus cs ss n l1) e)) = core (fst (step (mkBus cs ss n l2) e)) /\
+  snd (step (mkBus cs ss n l1) e) = snd (step (mkBus cs ss n l2) e).
+Proof.
+  intros Hne. destruct e; try (apply step_limit_irrel; intros c0 Hin; exfalso).
+  - simpl in Hin. exact Hin.
+  - simpl in Hin. exact Hin.
+  - destruct (step_error _ _ _ ELimitsExceeded Hin eq_refl) as [_ [_ [cn [_ _]]]].
+    revert Hin. simpl. unfold fault. destruct (find_conn cs c) as [cn'|]; [|intros [H|[]]; discriminate H].
+    destruct (c_active cn'); [intros [H|[]]; discriminate H|]. destruct (lookup ss (KU c)); [intros [H|[]]; discriminate H|].
+    simpl. intros [H|H]; [discriminate H|]. apply in_app_or in H. destruct H as [H|[H|[]]]; [|discriminate H].
+    apply in_map_iff in H. destruct H as [x [H _]]. discriminate H.
+  - destruct (step_error _ _ _ ELimitsExceeded Hin eq_refl) as [_ [_ _]].
+    revert Hin. simpl. unfold fault. destruct (find_conn cs c) as [cn'|]; [|intros [H|[]]; discriminate H].
+    destruct (c_active cn'); [intros [H|[]]; discriminate H|]. destruct (lookup ss (KU c)); [intros [H|[]]; discriminate H|].
+    simpl. intros [H|H]; [discriminate H|]. apply in_app_or in H. destruct H as [H|[H|[]]]; [|discriminate H].
+    apply in_map_iff in H. destruct H as [x [H _]]. discriminate H.
+  - revert Hin. simpl. unfold fault. destruct (find_conn cs c) as [cn'|]; [|intros [H|[]]; discriminate H].
+    destruct (negb (c_active cn')); intros [H|[]]; discriminate H.
+  - revert Hin. simpl. unfold fault. destruct (find_conn cs c) as [cn'|]; [|intros [H|[]]; discriminate H].
+    destruct (negb (c_active cn')); intros [H|[]]; discriminate H.
+  - exfalso. eapply Hne. reflexivity.
+  - exfalso. eapply Hne. reflexivity.
+  - destruct (step_error _ _ _ ELimitsExceeded Hin eq_refl) as [_ [_ F]]. apply F. reflexivity.
+  - destruct (step_error _ _ _ ELimitsExceeded Hin eq_refl) as [_ [_ F]]. apply F. reflexivity.
+  - destruct (step_error _ _ _ ELimitsExceeded Hin eq_refl) as [_ [_ F]]. exact F.
+  - destruct (step_error _ _ _ ELimitsExceeded Hin eq_refl) as [_ [_ F]]. exact F.
+Qed.
